@@ -6,7 +6,13 @@
    s is ANY schedule: a list of thread numbers, one entry = one atomic store
    call or one shared-memory access of the store's bitmap loop by that thread.
    [ser = true] is the tree with the repair (withdraw_for_ingress serialised by
-   a mutex of the Rib), [ser = false] the code as it was. *)
+   a mutex of the Rib), [ser = false] the code as it was.
+   An Update::Withdraw(id, Some family) for a family withdraw_for_ingress has no
+   arm for (anything but IPv4/IPv6 unicast/multicast, [unsupported]) takes the
+   mutex and panics: that call's outcome is the panic ([c_panics]), the mutex is
+   poisoned ([c_poison]) and - as the code recovers a poisoned mutex - taken by
+   every later call all the same. [effective p] is p with those requests
+   replaced by no-ops: what p does to the RIB. *)
 From stdpp Require Import gmap.
 From Coq Require Import NArith.
 From RV Require Import Rib.RibModel Rib.RibProofs Rib.RibConc Rib.RibConcProofs.
@@ -18,7 +24,7 @@ From RV Require Import Rib.RibModel Rib.RibProofs Rib.RibConc Rib.RibConcProofs.
 Theorem C09_last_write_wins : forall (ser : bool) progs s t p k,
   disjoint_ids progs -> progs !! t = Some p -> In (k_mui k) (prog_muis p) ->
   all_done (run ser (init progs) s) = true ->
-  rib_lookup (c_rib (run ser (init progs) s)) k = rib_lookup (rib_run p) k.
+  rib_lookup (c_rib (run ser (init progs) s)) k = rib_lookup (rib_run (effective p)) k.
 Proof. exact last_write_wins. Qed.
 Print Assumptions C09_last_write_wins.
 
@@ -27,18 +33,27 @@ Print Assumptions C09_last_write_wins.
 Theorem C09_last_write_is_last_event : forall (ser : bool) progs s t p k,
   disjoint_ids progs -> progs !! t = Some p -> In (k_mui k) (prog_muis p) ->
   all_done (run ser (init progs) s) = true ->
-  known_c03 (evs_of p) k = false ->
-  rib_lookup (c_rib (run ser (init progs) s)) k = spec_lookup (evs_of p) k.
+  known_c03 (evs_of (effective p)) k = false ->
+  rib_lookup (c_rib (run ser (init progs) s)) k = spec_lookup (evs_of (effective p)) k.
 Proof. exact last_write_is_last_event. Qed.
 Print Assumptions C09_last_write_is_last_event.
 
 (* The whole final RIB, key by key, is the one the writers would have produced
-   one after the other: no interleaving loses or corrupts anything. *)
+   one after the other: no interleaving loses or corrupts anything - and a
+   request that panicked (one session's fault) has left nothing behind and has
+   taken nothing from the others. *)
 Theorem C09_interleaving_equals_sequential : forall (ser : bool) progs s k,
   disjoint_ids progs -> all_done (run ser (init progs) s) = true ->
-  rib_lookup (c_rib (run ser (init progs) s)) k = rib_lookup (rib_run (concat progs)) k.
+  rib_lookup (c_rib (run ser (init progs) s)) k = rib_lookup (rib_run (effective (concat progs))) k.
 Proof. exact final_lookup_sequential. Qed.
 Print Assumptions C09_interleaving_equals_sequential.
+
+(* a program none of whose requests is unsupported is its own effect (the
+   three statements above then read as they did before such requests were modelled) *)
+Theorem C09_effective_without_unsupported : forall p,
+  (forall m fo, In (UWithdraw m fo) p -> unsupported fo = None) -> effective p = p.
+Proof. exact effective_id. Qed.
+Print Assumptions C09_effective_without_unsupported.
 
 Theorem C09_unowned_absent : forall (ser : bool) progs s k,
   (forall t p, progs !! t = Some p -> ~ In (k_mui k) (prog_muis p)) ->
@@ -57,8 +72,10 @@ Theorem C09_reader_sees_owner_prefix : forall (ser : bool) progs s t p k,
 Proof. exact reader_sees_owner_prefix. Qed.
 Print Assumptions C09_reader_sees_owner_prefix.
 
-(* Every session-wide withdrawal (Withdraw / WithdrawBulk) of a writer that has
-   finished has taken effect, whatever the others are doing meanwhile. *)
+(* Every session-wide withdrawal (Withdraw of all families or of one of the
+   four, WithdrawBulk) of a writer that has finished has taken effect, whatever
+   the others are doing meanwhile - and whatever panicked before: no hypothesis
+   about the other requests, the mutex may be poisoned. *)
 Theorem C09_withdraw_all_effective : forall (ser : bool) progs s t p m fo k,
   progs !! t = Some p -> withdraws p m fo ->
   done_at (run ser (init progs) s) t = true ->
@@ -67,7 +84,9 @@ Theorem C09_withdraw_all_effective : forall (ser : bool) progs s t p m fo k,
 Proof. exact withdraw_all_effective. Qed.
 Print Assumptions C09_withdraw_all_effective.
 
-(* Bounded completion on the repaired code: under any schedule made of blocks
+(* Bounded completion on the repaired code (programs with unsupported requests
+   included: the panic ends the call, a poisoned mutex is taken like a healthy
+   one - [step] never reads [c_poison]): under any schedule made of blocks
    in each of which every writer gets at least one turn, work(init) blocks
    suffice for every writer to finish all its Updates (work = 1 per route,
    2 + 2 x bitmaps per session-wide withdrawal). *)
@@ -115,6 +134,50 @@ Theorem C09_cas_failure_is_fatal : forall progs s s',
 Proof. exact cas_failure_is_fatal. Qed.
 Print Assumptions C09_cas_failure_is_fatal.
 
+(* ---- requests for a family the RIB cannot withdraw: panic!("no support ..") ---- *)
+
+(* The calls of writer t that ended in a panic are, in program order, exactly
+   its requests for an unsupported family: at any moment of any interleaving a
+   prefix of them, all of them once t is done. No other call of t panics
+   (in particular none because an earlier panic poisoned the mutex). *)
+Theorem C09_panics_are_the_unsupported_requests : forall (ser : bool) progs s t p,
+  progs !! t = Some p ->
+  exists rest, pans_of t (c_panics (run ser (init progs) s)) ++ rest = flat_map upd_pans p /\
+    (done_at (run ser (init progs) s) t = true -> rest = []).
+Proof. exact panics_exact. Qed.
+Print Assumptions C09_panics_are_the_unsupported_requests.
+
+(* ... and every panic in the log, whoever raised it, is such a request of its own thread *)
+Theorem C09_only_unsupported_requests_panic : forall (ser : bool) progs s t x,
+  In (t, x) (c_panics (run ser (init progs) s)) ->
+  exists p m f, progs !! t = Some p /\ x = PUnsup m f /\ In (UWithdraw m (Some f)) p /\ fam_supported f = false.
+Proof. exact only_unsupported_requests_panic. Qed.
+Print Assumptions C09_only_unsupported_requests_panic.
+
+(* The mutex really is poisoned from the first such panic on (std::sync::Mutex
+   never clears the flag). C09_terminates / C09_no_deadlock / C09_withdraw_all_effective /
+   C09_interleaving_equals_sequential hold for these runs: every later call
+   completes and takes effect. *)
+Theorem C09_poisoned_iff_panicked : forall progs s,
+  c_poison (run true (init progs) s) = true <-> c_panics (run true (init progs) s) <> [].
+Proof. exact poisoned_iff_panicked. Qed.
+Print Assumptions C09_poisoned_iff_panicked.
+
+(* REFUTATION for the usual idiom `.lock().unwrap()` in place of the recovery
+   (NOT the code; [step_strict]): session 1 asks for FlowSpec (family 9) and
+   panics under the guard; the session-wide withdrawals of sessions 2 and 3 that
+   follow panic on the PoisonError before they have marked anything; all writers
+   finish and the routes of 2 and 3 are still active, whatever comes next. *)
+Theorem C09_unwrap_on_poison_refuted : forall s,
+  let c := run_strict (init poison_progs) (poison_sched ++ s) in
+  all_done c = true /\
+  c_panics c = [(0, PUnsup 1%N 9%N); (1, PPoison 2%N); (2, PPoison 3%N)] /\
+  rib_lookup (c_rib c) (ex_key 0 7 2) = Some (true, 3%N) /\
+  rib_lookup (c_rib c) (ex_key 1 7 3) = Some (true, 4%N) /\
+  rib_lookup (c_rib c) (ex_key 2 8 3) = Some (true, 4%N).
+Proof. exact unwrap_on_poison_loses_withdrawals. Qed.
+Print Assumptions C09_unwrap_on_poison_refuted.
+
 (* non-vacuity: three writers sharing prefix 7 (and 8), Bulk with a withdrawal,
    session-wide withdrawals with and without family, an adversarial schedule;
    the hypotheses hold, the run finishes, and the final answers for prefix 7 are
@@ -128,4 +191,17 @@ Example C09_example :
   rib_lookup (c_rib c) (ex_key 2 7 4) = Some (false, 9%N) /\
   all_done (run true (init example_progs) (firstn 20 example_sched)) = false /\
   c_fail (run false (init livelock_progs) livelock_prefix) = 1%N.
+Proof. vm_compute. repeat split; reflexivity. Qed.
+
+(* the same for a run with an unsupported request: the code as it is finishes
+   with the mutex poisoned, one panic (the FlowSpec request's), session 1's route
+   untouched, sessions 2 and 3 withdrawn *)
+Example C09_example_poisoned :
+  let c := run true (init poison_progs) poison_sched in
+  disjoint_idsb poison_progs = true /\ work (init poison_progs) = 26 /\
+  all_done c = true /\ c_poison c = true /\ c_panics c = [(0, PUnsup 1%N 9%N)] /\
+  rib_lookup (c_rib c) (ex_key 0 7 1) = Some (true, 5%N) /\
+  rib_lookup (c_rib c) (ex_key 0 7 2) = Some (false, 3%N) /\
+  rib_lookup (c_rib c) (ex_key 1 7 3) = Some (false, 4%N) /\
+  rib_lookup (c_rib c) (ex_key 2 8 3) = Some (false, 4%N).
 Proof. vm_compute. repeat split; reflexivity. Qed.
